@@ -671,13 +671,68 @@ Proof.
   unfold delta_info. rewrite !flat_map_app, !cnt_app. simpl flat_map at 2. rewrite Nat.add_0_r. apply Nat.le_add_r.
 Qed.
 
+(** * set_param: the argument binding a parameter gets the value, everything else is kept *)
+Lemma set_first_kw_some name v args : forall r, set_first_kw name v args = Some r ->
+  exists i a, nth_error args i = Some a /\ kw_is name a = true /\ r = firstn i args ++ set_value a v :: skipn (S i) args.
+Proof.
+  induction args as [|a0 l IH]; intros r H; simpl in H; [discriminate|].
+  destruct (kw_is name a0) eqn:E.
+  - inversion H; subst. exists O, a0. repeat split; assumption.
+  - destruct (set_first_kw name v l) as [r'|]; [|discriminate]. inversion H; subst.
+    destruct (IH r' eq_refl) as [i [a [Hi [Hk Hr]]]]. exists (S i), a. repeat split; try assumption.
+    simpl. rewrite Hr. reflexivity.
+Qed.
+Lemma set_first_kw_none name v args : set_first_kw name v args = None -> has_kw name args = false.
+Proof.
+  induction args as [|a0 l IH]; simpl; intros H; [reflexivity|].
+  destruct (kw_is name a0); [discriminate|]. destruct (set_first_kw name v l); [discriminate|]. simpl. apply IH. reflexivity.
+Qed.
+Lemma replace_at_count args : forall i a v t, nth_error args i = Some a ->
+  cnt (toks_args (firstn i args ++ set_value a v :: skipn (S i) args)) t + cnt (toks (value a)) t
+  = cnt (toks_args args) t + cnt (toks v) t.
+Proof.
+  induction args as [|a0 l IH]; intros i a v t H; [destruct i; discriminate|].
+  destruct i as [|j]; simpl in H.
+  - inversion H; subst. simpl firstn. simpl skipn. simpl app. rewrite !toks_args_cons, !cnt_app.
+    pose proof (toks_arg_set_value a v t). lia.
+  - simpl firstn. simpl skipn. rewrite <- app_comm_cons, !toks_args_cons, !cnt_app.
+    pose proof (IH j a v t H). simpl skipn in *. lia.
+Qed.
+Lemma set_param_cases name pos v args :
+  (exists i a, nth_error args i = Some a /\
+               set_param name pos v args = firstn i args ++ set_value a v :: skipn (S i) args /\
+               (kw_is name a = true \/ (i = pos /\ is_plain_positional a = true /\ has_kw name args = false))) \/
+  (set_param name pos v args = args ++ [mkArg (Some name) 0 0 0 v] /\ has_kw name args = false).
+Proof.
+  unfold set_param. destruct (set_first_kw name v args) as [r|] eqn:E.
+  - left. destruct (set_first_kw_some _ _ _ _ E) as [i [a [Hi [Hk Hr]]]]. exists i, a. repeat split; try assumption. left. exact Hk.
+  - pose proof (set_first_kw_none _ _ _ E) as Hn.
+    destruct (nth_error args pos) as [a|] eqn:Hp; [|right; split; [reflexivity|exact Hn]].
+    destruct (is_plain_positional a && forallb is_plain_positional (firstn pos args)) eqn:C; [|right; split; [reflexivity|exact Hn]].
+    left. exists pos, a. repeat split; try assumption. right. apply andb_true_iff in C. repeat split; [apply C|exact Hn].
+Qed.
+Lemma set_param_count_le name pos v args t :
+  cnt (toks_args (set_param name pos v args)) t <= cnt (toks_args args) t + cnt (TKw name :: toks v) t.
+Proof.
+  pose proof (cnt_cons_le (TKw name) (toks v) t) as C.
+  destruct (set_param_cases name pos v args) as [[i [a [Hi [Hr _]]]]|[Hr _]]; rewrite Hr.
+  - pose proof (replace_at_count args i a v t Hi). lia.
+  - rewrite toks_args_app, cnt_app.
+    change (toks_args [mkArg (Some name) 0 0 0 v]) with ((TKw name :: toks v) ++ []). rewrite app_nil_r. lia.
+Qed.
+
+Lemma arg_kind_noncall k u : arg_kind k = true -> (forall m f a, u <> ECall m f a) -> on_result_found_upd k u = u.
+Proof.
+  intros Hk Hu. destruct u; [| | |exfalso; eapply Hu; reflexivity]; destruct k; try discriminate Hk; reflexivity.
+Qed.
+
 Lemma single_call_count_le k : arg_kind k = true -> forall u t,
   cnt (toks (on_result_found_upd k u)) t <= cnt (toks u) t + cnt (delta_kind k) t.
 Proof.
   intros Hk u t. destruct u as [s|e a|s|m f args].
-  1-3: destruct k; try discriminate Hk; cbn; lia.
+  1-3: rewrite arg_kind_noncall by (assumption || (intros; discriminate)); lia.
   unfold on_result_found_upd.
-  destruct k as [info| |name v|safe|safe|lim| | | | | | |]; try discriminate Hk; cbn [on_result_found update_arg_target with_args args_of add_arg_to_call delta_kind].
+  destruct k as [info| |name v|safe|v safe|lim| | | | | | |]; try discriminate Hk; cbn [on_result_found update_arg_target with_args args_of add_arg_to_call delta_kind].
   - rewrite !toks_call, !cnt_app. pose proof (replace_args_count_le args info t). lia.
   - rewrite !toks_call, !cnt_app. pose proof (replace_args_count_le args (choose_new_args args) t).
     pose proof (cookie_delta_le args t). lia.
@@ -693,6 +748,7 @@ Proof.
     pose proof (cnt_cons_le (TKw (S_ "protocol")) (toks safe) t). lia.
   - rewrite !toks_call, !cnt_app.
     pose proof (cnt_cons_le (TKw (S_ "Loader")) (toks safe) t) as C.
+    destruct v; [|pose proof (set_param_count_le (S_ "Loader") 1 safe args t); unfold pyyaml_args; lia].
     destruct args as [|a0 [|a1 r]]; unfold pyyaml_args; cbn [firstn app].
     + change (toks_args [mkArg (Some (S_ "Loader")) 0 0 0 safe]) with ((TKw (S_ "Loader") :: toks safe) ++ []).
       rewrite app_nil_r. change (toks_args []) with (@nil tok); change (cnt [] t) with O; lia.
